@@ -254,9 +254,9 @@ func checkC14(c *Ctx) {
 	}
 	jobs := c.frontJobs(maxN)
 	jobs = append(jobs, consistentJobs()...)
-	c.BoundsText = append(c.BoundsText, "semantic level (kernel): ast.consistent on a two-production grammar with an undefined production and/or an undefined token of SYMBOLIC spelling and with every map iteration order symbolic: an undefined syntax production (any capital first letter) or an alternative left empty always yields an error")
+	c.BoundsText = append(c.BoundsText, "semantic level (kernel): ast.consistent on a two-production grammar with an undefined production and/or an undefined token of SYMBOLIC spelling and with every map iteration order symbolic: an undefined syntax production (any capital first letter) or an alternative left empty always yields an error; ast.NewLexPart on two definitions of the same kind with symbolic names yields a lexical part iff the names differ")
 	c.BoundsText = append(c.BoundsText, fmt.Sprintf("token level: every sequence of 0..%d front-end tokens that is NOT a sentence of spec/gocc2.ebnf makes the real front-end Parser.Parse (checked-in tables, Error()/recovery executed as shipped) return a non-nil error; main() exits with status 1 whenever Parse returns an error (read from main.go)", maxN),
-		"outside the claim: duplicate definitions and undefined regular definitions (internal/ast NewLexPart/LexProdMap); that main() turns the error into a non-zero exit status (read from main.go, not encoded); malformed lexemes at scanner level (Scanner.ErrorCount is not consulted by main)")
+		"outside the claim: undefined regular definitions; that main() turns the error into a non-zero exit status (read from main.go, not encoded); malformed lexemes at scanner level (Scanner.ErrorCount is not consulted by main)")
 	c.RunJobs(filterJobs(jobs), 4)
 }
 
@@ -271,6 +271,16 @@ func consistentJobs() []Job {
 			Run:          SymRun{Harness: "VerifC14Consistent", Params: map[string]int{"MODE": mode}, LoopBound: 24, SymbolicMapOrder: true, Prune: true},
 			ReplayParams: map[string]int{"REPEAT": 200},
 			Bounds:       fmt.Sprintf("ast.consistent, case %d (0 all defined, 1 undefined production, 2 undefined token, 3 both, 4 empty alternative); spellings and every map iteration order symbolic", mode),
+		})
+	}
+	for kind := 0; kind <= 2; kind++ {
+		jobs = append(jobs, Job{
+			Name:           fmt.Sprintf("duplicate definitions kind=%d", kind),
+			Target:         ta,
+			Run:            SymRun{Harness: "VerifC14Duplicates", Params: map[string]int{"KIND": kind}, LoopBound: 24, Prune: true},
+			AllowPanic:     []string{"@lexprodmap.go"},
+			Bounds:         fmt.Sprintf("ast.NewLexPart on two definitions of kind %d (0 token, 1 regular definition, 2 ignored token) with symbolic one-letter names", kind),
+			RequiredCovers: []string{"end"},
 		})
 	}
 	return jobs
